@@ -1,9 +1,115 @@
-From Coq Require Import List Arith Bool.
+(** C19 — Composition validation rejects exactly the unworkable topologies.
+    Model: FV.Validate (Composition.connect / _validate_composition / the four check helpers /
+    Composition.metadata["links"] of src/finam/schedule.py).
+    This file contains only statements; proofs are in FVP.Validate_proofs, where the link forest
+    relations ([tpath], [fpath], [sub]), the five declarative defects and [wf] are defined. *)
+From Coq Require Import List Arith Bool Permutation.
 From FV Require Import Base Validate.
 From FVP Require Import Validate_proofs.
 Import ListNotations.
 
-Theorem C19_tmp : forall l, snd (run_checks l) = None ->
-  fst (run_checks l) = map (fun ck => EvCheck (fst (fst (fst ck))) (snd (fst (fst ck))) (snd (fst ck))) l.
-Proof. exact run_checks_events_ok. Qed.
-Print Assumptions C19_tmp.
+(** For every well-formed link forest (any number of components, any depth, any fan-out):
+    the validation (the index loops / work lists of the code, in the code's order) passes iff none
+    of the five defects - each an existential statement over the chains of the forest - is present;
+    without a defect [_validate_composition] and [connect] do not raise in the validation, with a
+    defect both raise FinamConnectError. *)
+Theorem C19_exact :
+  forall t : topo, wf t ->
+    (validate t = VOk <->
+     ~ (unconnected t \/ static_mismatch t \/ missing_component t \/ nobranch_fanout t \/ dead_link t))
+    /\ (~ (unconnected t \/ static_mismatch t \/ missing_component t \/ nobranch_fanout t \/ dead_link t) ->
+        snd (validate_composition t) = RDone /\ snd (connect false t) = RDone)
+    /\ ((unconnected t \/ static_mismatch t \/ missing_component t \/ nobranch_fanout t \/ dead_link t) ->
+        snd (validate_composition t) = RRaised ConnectError
+        /\ snd (connect false t) = RRaised ConnectError).
+Proof. exact validate_exact. Qed.
+
+(** After a successful validation the link list reported by [Composition.metadata] (outputs of the
+    composition in index order, then the adapters of the de-duplicated adapter set) is a permutation
+    of the links created by [>>] in all link trees that touch the composition:
+    output→adapter, adapter→adapter, adapter→input, output→input. *)
+Theorem C19_links_exact :
+  forall t : topo, wf t -> validate t = VOk ->
+    Permutation (metadata_links t) (created_links t).
+Proof. exact links_exact. Qed.
+
+(** In [Composition.connect]: whenever a component is asked to connect or a slot exchanges anything
+    (event [e] at any position of the trace), the composition was not connected before, the
+    validation has passed, and all validation checks precede [e]; if the validation fails, connect
+    raises FinamConnectError and the trace contains no connect / exchange event at all. *)
+Theorem C19_before_exchange :
+  forall (t : topo) (already : bool) (ev : list event) (r : result),
+    connect already t = (ev, r) ->
+    (forall pre e post, ev = pre ++ e :: post -> is_exchange e = true ->
+       already = false /\ validate t = VOk /\ exists pre', pre = check_events t ++ pre')
+    /\ (validate t <> VOk -> already = false ->
+        r = RRaised ConnectError /\ forall e, In e ev -> is_exchange e = false).
+Proof. exact connect_order. Qed.
+
+(* ------------------------------------------------------------------------- *)
+(** Non-vacuity. *)
+
+Definition oA : oslot := mkO (Some 0) 0 false true false.   (* push-type output 0 of component 0 *)
+Definition oCb : oslot := mkO (Some 0) 1 false false true.  (* pull-only (callback) output 1 of component 0 *)
+Definition iB0 : islot := mkI (Some 1) 0 false false true.  (* plain inputs of component 1 *)
+Definition iB1 : islot := mkI (Some 1) 1 false false true.
+Definition iB2 : islot := mkI (Some 1) 2 false true false.  (* callback input *)
+Definition scale (k : nat) : ada := mkA k false false false.
+Definition linear (k : nat) : ada := mkA k true false true.  (* push-based, no-branch *)
+
+(** A.O0 >> Scale; Scale >> B.I0; Scale >> LinearTime >> B.I2(callback); A.O0 >> B.I1; A.O1 unused *)
+Definition ex_ok : topo :=
+  mkT [(0, 2); (3, 0)]
+      [(Some oA, [Node (scale 0) [Leaf iB0; Node (linear 1) [Leaf iB2]]; Leaf iB1]); (Some oCb, [])].
+
+(** A.O0 >> LinearTime >> Scale, fan-out below it (one branch a dead-end adapter);
+    A.O1(callback) >> Scale >> B.I1(callback) *)
+Definition ex_bad : topo :=
+  mkT [(0, 2); (2, 0)]
+      [(Some oA, [Node (linear 0) [Node (scale 1) [Leaf iB0; Node (scale 2) []]]]);
+       (Some oCb, [Node (scale 3) [Leaf (mkI (Some 1) 1 false true false)]])].
+
+Example C19_exact_nonvacuous :
+  wf ex_ok /\ validate ex_ok = VOk
+  /\ wf ex_bad /\ nobranch_fanout ex_bad /\ dead_link ex_bad
+  /\ validate ex_bad = VErr (CkBranch, 0, 0, KBranch).
+Proof.
+  split; [apply wfb_wf; vm_compute; reflexivity|].
+  split; [vm_compute; reflexivity|].
+  split; [apply wfb_wf; vm_compute; reflexivity|].
+  split; [|split; [|vm_compute; reflexivity]].
+  - exists oA, [Node (linear 0) [Node (scale 1) [Leaf iB0; Node (scale 2) []]]], 0,
+      (Node (linear 0) [Node (scale 1) [Leaf iB0; Node (scale 2) []]]),
+      [linear 0], (scale 1), [Leaf iB0; Node (scale 2) []].
+    simpl. repeat split; auto.
+    + econstructor; [left; reflexivity|constructor].
+    + exists (linear 0). simpl. auto.
+  - exists oCb, [(scale 3, [Leaf (mkI (Some 1) 1 false true false)])],
+      (mkI (Some 1) 1 false true false), 1.
+    split; [apply all_paths_spec; vm_compute; auto|]. split; [reflexivity|].
+    exists [], (false, true), [(false, false)], (true, false), []. simpl. auto.
+Qed.
+
+Example C19_links_exact_nonvacuous :
+  wf ex_ok /\ validate ex_ok = VOk
+  /\ metadata_links ex_ok =
+     [(NOut (Some 0) 0, NAda 0); (NOut (Some 0) 0, NIn (Some 1) 1);
+      (NAda 0, NIn (Some 1) 0); (NAda 0, NAda 1); (NAda 1, NIn (Some 1) 2)]
+  /\ length (created_links ex_ok) = 5.
+Proof.
+  split; [apply wfb_wf; vm_compute; reflexivity|]. repeat split; vm_compute; reflexivity.
+Qed.
+
+Example C19_before_exchange_nonvacuous :
+  connect false ex_ok =
+    ([EvCheck CkBranch 0 0; EvCheck CkBranch 0 1;
+      EvCheck CkInput 1 0; EvCheck CkDead 1 0; EvCheck CkInput 1 1; EvCheck CkDead 1 1;
+      EvCheck CkInput 1 2; EvCheck CkDead 1 2; EvCheck CkMissing 0 0;
+      EvConnect 0; EvConnect 1], RDone)
+  /\ connect false ex_bad = ([EvCheck CkBranch 0 0; EvRaise], RRaised ConnectError)
+  /\ connect true ex_ok = ([], RRaised StatusError).
+Proof. repeat split; vm_compute; reflexivity. Qed.
+
+Print Assumptions C19_exact.
+Print Assumptions C19_links_exact.
+Print Assumptions C19_before_exchange.
